@@ -1,10 +1,11 @@
 """C20: generate_one / generate_many always produce data that conforms to the schema.
 The library's random source is replaced by a stub whose draws are solver variables."""
 import builtins
+import copy
 
 from vf import rt, family, shape
 from vf.oracles import ir as IR, conform, codec
-from . import l2
+from . import l2, l4
 from .l2 import _same
 
 import fastavro.utils as U
@@ -63,7 +64,19 @@ class _UUID:
         return uuid.UUID(int=0x12345678123456781234567812345678)
 
 
-def ob_generate(c, n, xs):
+_deepcopy_native = rt.untraced(copy.deepcopy)
+_freeze_native = rt.untraced(lambda s: repr(_plain(s)))
+
+
+def _plain(s):
+    if isinstance(s, list):
+        return [_plain(x) for x in s]
+    if isinstance(s, dict):
+        return {k: (_plain(v) if k != "__named_schemas" else sorted(v)) for k, v in s.items()}
+    return s
+
+
+def ob_generate(c, n, xs, parsed=False, container=False):
     if not (0 <= n <= 2):
         return True, "out of domain"
     d = Draws(xs)
@@ -71,9 +84,13 @@ def ob_generate(c, n, xs):
     U.random = d
     U.range = lambda k: builtins.range(min(k, CUT))
     U.uuid = _UUID
+    # the caller's schema object: raw, or parsed once and reused (a private copy per call, so that a generator
+    # that edits it cannot leak into other paths of the exploration)
+    sch = _deepcopy_native(c["parsed"] if parsed else c["schema"])
+    sch_before = _freeze_native(sch)
     try:
         try:
-            vals = list(U.generate_many(c["schema"], n))
+            vals = list(U.generate_many(sch, n))
         except Exception as e:
             return False, f"generate_many raised {type(e).__name__}: {e}"
     finally:
@@ -104,6 +121,24 @@ def ob_generate(c, n, xs):
             continue
         if not _same(back, want):
             return False, f"generated value {v!r} read back as {back!r}"
+    # the container writer accepts the values under the very schema object the generator was given, and the file
+    # can be read back on its own
+    if vals and container:
+        out, store = l4.seq_out()
+        try:
+            W.writer(out, sch, vals, sync_marker=b"0123456789abcdef")
+            back = list(R.reader(l4.seq_in(store)))
+        except Exception as e:
+            return False, (f"container round trip of generated values under the schema object given to the generator "
+                           f"({'parsed' if parsed else 'raw'}): {type(e).__name__}: {e}")
+        try:
+            want = [codec.normalise(c["ir"], v, c["names"], rt.f32) for v in vals]
+        except codec.Silent:
+            want = None
+        if want is not None and not _same(back, want):
+            return False, f"container file of generated values {vals!r} reads back as {back!r}"
+    if _freeze_native(sch) != sch_before:
+        return False, f"generate_many modified the schema object it was given ({'parsed' if parsed else 'raw'} form)"
     return True, ""
 
 
@@ -139,9 +174,24 @@ def harnesses(tier, seed):
         setup = f"from props.l2 import case\nC = case({name!r}, {th})"
         nd = 12 if th else 8
         tp = "Tuple[" + ", ".join(["int"] * nd) + "]"
-        call = "ob_generate(C, n, xs)"
+        import zlib
+        par = bool((zlib.crc32(name.encode()) + seed) & 1)
+        pv = "parsed" if th else str(par)
+        pp = ", parsed: bool" if th else ""
+        ex = (lambda b: (b,)) if th else (lambda b: ())
+        call = f"ob_generate(C, n, xs, {pv})"
         s1 = tuple(range(3, 3 + nd))
         s2 = tuple((7 * i + seed) % 1000 for i in range(nd))
-        hs.append(Harness(f"generate_many.{name}", "props.l20", f"n: int, xs: {tp}", call + "[0]", replay_call=call, setup=setup,
-                          what=f"generate_many on {name}", samples=[(1, s1), (2, s2), (0, s1)], key=f"generate:{name}"))
+        hs.append(Harness(f"generate_many.{name}", "props.l20", f"n: int, xs: {tp}{pp}", call + "[0]", replay_call=call, setup=setup,
+                          what=f"generate_many on {name}", samples=[(1, s1) + ex(False), (2, s2) + ex(True), (0, s1) + ex(True)],
+                          key=f"generate:{name}"))
+        # container writer/reader on the generated values under the very schema object given to the generator
+        # (raw or parsed once and reused): fewer symbolic draws, both schema forms
+        nc = 2
+        tc = "Tuple[" + ", ".join(["int"] * nc) + "]"
+        rest = tuple((5 * i + 1) % 7 for i in range(nd - nc))
+        call = f"ob_generate(C, 1, tuple(xs) + {rest!r}, parsed, True)"
+        hs.append(Harness(f"generate_container.{name}", "props.l20", f"xs: {tc}, parsed: bool", call + "[0]", replay_call=call, setup=setup,
+                          what=f"container round trip of generated values on {name}",
+                          samples=[(s1[:nc], False), (s2[:nc], True)], key=f"generate:{name}"))
     return hs
